@@ -396,7 +396,7 @@ pub fn splitmix(seed: u64) -> impl FnMut() -> u64 {
 /// Lengths at which blocked / chunked / thresholded code changes regime, up to `max`.
 pub fn regime_lengths(min: usize, max: usize) -> Vec<usize> {
     let mut v = vec![];
-    for b in [64usize, 128, 256, 512, 1024, 2048, 4096, 8192, 16384] {
+    for b in [64usize, 128, 256, 512, 1024, 2048, 4096, 8192, 16384, 32768, 65536] {
         for k in 1..=3usize {
             for d in [-1isize, 0, 1] {
                 let n = (b * k) as isize + d;
@@ -406,7 +406,7 @@ pub fn regime_lengths(min: usize, max: usize) -> Vec<usize> {
             }
         }
     }
-    for n in [1000usize, 2000, 3000, 5000, 9000, 10_000, 20_000] {
+    for n in [1000usize, 2000, 3000, 5000, 9000, 10_000, 20_000, 50_000, 70_000] {
         if n >= min && n <= max {
             v.push(n);
         }
